@@ -4,7 +4,9 @@
 
    Containers are modelled at the cursor level over an abstract element list:
      Array   cursor = element index in Z ("one before the first" is representable)
-     List    cursor = node position, Tree cursor = in-order position
+     List    cursor = node position
+     Tree    cursor = the node (its path from the root) in an arbitrary binary tree; iter_next/prev
+             follow child and parent links as coded
      Tuple   cursor = the element identity itself (object id), as in the code
      Table   cursor = slot index in Z over the slot occupancy list
    Range arithmetic is over Z with every int64 operation wrapped explicitly (wrap64).
@@ -55,8 +57,13 @@ Definition repaired : rules := mkRules true true true true true true true true t
 
 Record rng := mkRng { r_start : Z; r_stop : Z; r_step : Z }.
 
+(* Tree: any binary tree shape (the red-black balancing is C03's); a node pointer = its path *)
+Inductive tree := TLeaf | TNode (l : tree) (k : val) (r : tree).
+Inductive tdir := TL | TR.
+
 Inductive cur :=
-| CPos (i : Z)               (* Array / Table slot / List node / Tree in-order position *)
+| CPos (i : Z)               (* Array element / Table slot / List node position *)
+| CNode (rp : list tdir)     (* Tree: the node, as the reversed path from the root (head = last step) *)
 | CObj (id : nat)            (* Tuple: the element pointer *)
 | CInt (v : Z)               (* Range: value of the Range's own Int *)
 | CSlice (c : cur) (rv : Z)  (* underlying cursor, value of the Slice's own Range cursor *)
@@ -68,7 +75,7 @@ Inductive iterable :=
 | IList (xs : list val)
 | ITuple (items : list (nat * val))       (* (object id, value); the same id twice = the same pointer twice *)
 | ITable (slots : list (option val))      (* slot occupancy: the key, or empty *)
-| ITree (keys : list val)                 (* keys in in-order sequence *)
+| ITree (t : tree)                        (* the node structure; iteration follows child and parent links *)
 | IRange (r : rng)
 | ISlice (u : iterable) (r : rng)
 | IZip (us : list iterable)
@@ -187,7 +194,7 @@ Section Model.
     | Bwd => if (if array_prev_incl R then i <=? 0 else i <? 0) then None else Some (CPos (i - 1))
     end.
 
-  (* List: *List_Next / *List_Prev is NULL at the ends; Tree: in-order successor / predecessor *)
+  (* List: *List_Next / *List_Prev is NULL at the ends *)
   Definition list_step (d : dir) (n i : Z) : option cur :=
     match d with
     | Fwd => if i + 1 <? n then Some (CPos (i + 1)) else None
@@ -260,6 +267,45 @@ Section Model.
   Definition tab_step (d : dir) (slots : list (option val)) (i : Z) : outcome (option cur) :=
     tab_scan (S (length slots)) d slots (match d with Fwd => i + 1 | Bwd => i - 1 end).
 
+  (* ------------------------------------------------------------------ Tree: child and parent links *)
+  Definition tdir_eqb (a b : tdir) : bool := match a, b with TL, TL | TR, TR => true | _, _ => false end.
+  Definition opp (d : tdir) : tdir := match d with TL => TR | TR => TL end.
+  Definition child (d : tdir) (t : tree) : tree :=
+    match t with TLeaf => TLeaf | TNode l _ r => match d with TL => l | TR => r end end.
+  Fixpoint subtree (t : tree) (p : list tdir) : tree :=
+    match p with [] => t | d :: p' => subtree (child d t) p' end.
+  Definition node_at (t : tree) (rp : list tdir) : tree := subtree t (rev rp).
+  Fixpoint tree_size (t : tree) : nat :=
+    match t with TLeaf => O | TNode l _ r => (tree_size l + 1 + tree_size r)%nat end.
+  (* Tree_Iter_Init/Next: while (left(node) isnt NULL) { node = left(node); }   (right for Last/Prev) *)
+  Fixpoint descend (near : tdir) (s : tree) (rp : list tdir) {struct s} : list tdir :=
+    match s with
+    | TLeaf => rp
+    | TNode l _ r =>
+      match near with
+      | TL => match l with TLeaf => rp | TNode _ _ _ => descend near l (near :: rp) end
+      | TR => match r with TLeaf => rp | TNode _ _ _ => descend near r (near :: rp) end
+      end
+    end.
+  (* while (true) { if (prnt is NULL) return Terminal; if (node is left(prnt)) return prnt;
+                    if (node is right(prnt)) { prnt = parent(prnt); node = parent(node); } }   (mirrored for Prev) *)
+  Fixpoint climb (near : tdir) (rp : list tdir) : option (list tdir) :=
+    match rp with
+    | [] => None
+    | d :: up => if tdir_eqb d near then Some up else climb near up
+    end.
+  Definition near_of (d : dir) : tdir := match d with Fwd => TL | Bwd => TR end.
+  (* Tree_Iter_Init / Tree_Iter_Last *)
+  Definition tree_start (d : dir) (t : tree) : option cur :=
+    match t with TLeaf => None | TNode _ _ _ => Some (CNode (descend (near_of d) t [])) end.
+  (* Tree_Iter_Next / Tree_Iter_Prev *)
+  Definition tree_step (d : dir) (t : tree) (rp : list tdir) : option cur :=
+    let near := near_of d in
+    match child (opp near) (node_at t rp) with
+    | TNode _ _ _ as c => Some (CNode (descend near c (opp near :: rp)))
+    | TLeaf => option_map CNode (climb near rp)
+    end.
+
   (* ------------------------------------------------------------------ the item a cursor denotes *)
   Definition oget {A} (o : option A) : outcome A := match o with Some a => OVal a | None => OCrash end.
 
@@ -276,7 +322,7 @@ Section Model.
     match u, c with
     | IArray xs, CPos i => oget (znth xs i)
     | IList xs, CPos i => oget (znth xs i)
-    | ITree xs, CPos i => oget (znth xs i)
+    | ITree t, CNode rp => match node_at t rp with TNode _ k _ => OVal k | TLeaf => OCrash end
     | ITuple items, CObj id =>
       match find (fun p => Nat.eqb (fst p) id) items with Some p => OVal (snd p) | None => OCrash end
     | ITable slots, CPos i => match znth slots i with Some (Some k) => OVal k | _ => OCrash end
@@ -303,7 +349,7 @@ Section Model.
     match u with
     | IArray xs => OVal (zlen xs)
     | IList xs => OVal (zlen xs)
-    | ITree xs => OVal (zlen xs)
+    | ITree t => OVal (Z.of_nat (tree_size t))
     | ITuple items => OVal (zlen items)
     | ITable slots => OVal (nitems_of slots)
     | IRange r => OVal (range_len r)
@@ -382,7 +428,7 @@ Section Model.
     match u, c with
     | IArray xs, CPos i => OVal (arr_step d (zlen xs) i)
     | IList xs, CPos i => OVal (list_step d (zlen xs) i)
-    | ITree xs, CPos i => OVal (list_step d (zlen xs) i)
+    | ITree t, CNode rp => OVal (tree_step d t rp)
     | ITuple items, CObj id => OVal (match d with Fwd => tup_next items id | Bwd => tup_prev items id end)
     | ITable slots, CPos i => tab_step d slots i
     | IRange r, CInt v => OVal (option_map CInt (ostep d r v))
@@ -425,7 +471,7 @@ Section Model.
     match u with
     | IArray xs => OVal (arr_start d (zlen xs))
     | IList xs => OVal (arr_start d (zlen xs))
-    | ITree xs => OVal (arr_start d (zlen xs))
+    | ITree t => OVal (tree_start d t)
     | ITuple items => tup_start d items
     | ITable slots => OVal (tab_start d slots)
     | IRange r => OVal (option_map CInt (ostart d r))
